@@ -416,6 +416,10 @@ let () =
        | "matesin" :: n :: r -> print_endline (b2s (spec_mates_in (n_of_string n) (parse_game (Array.of_list r) 0)))
        | "wf" :: r -> print_endline (b2s (wf (parse_game (Array.of_list r) 0)))
        | "inv" :: r -> print_endline (b2s (legal_inv_b (parse_game (Array.of_list r) 0)))
+       | "fendesc" :: r ->
+         (* fendesc <21 game fields> | <fen text> : does the text describe the position, in the sense of the theorem's executable hypothesis *)
+         let (gt, ft) = split_on "|" r in
+         print_endline (b2s (fen_describes (parse_game (Array.of_list gt) 0) (coq_of_string (String.concat " " ft))))
        | "inv3" :: r -> let g = parse_game (Array.of_list r) 0 in print_endline (b2s (legal_inv_b g) ^ b2s (men16_b g) ^ b2s (prow2_b g))
        | "mirror" :: r -> print_endline (game_fields (mirror (parse_game (Array.of_list r) 0)))
        | "specperft" :: r -> print_endline (do_specperft r)
